@@ -8,6 +8,7 @@ import (
 	_ "verif/h/c18"
 	_ "verif/h/c20"
 	_ "verif/h/life"
+	_ "verif/h/order"
 	_ "verif/h/pubsub"
 	_ "verif/h/subhist"
 )
